@@ -138,6 +138,19 @@ def run(R):
         if len(roots) > 1 and i % 4 == 0:
             # the labelled class: partial FIRST row
             run_one(R, "v2c", roots, db, "bulkwalk", BULKS[i % len(BULKS)], "partial_first", i, "partial-first")
+    if R.shard == 1 % R.nshards or R.nshards == 1:
+        # more than 1000 instances delivered, several roots (one of them short and directly
+        # in front of another, one empty), agent answering with partial rows
+        big = {}
+        for r in range(1, 700):
+            big[(1, 3, 9, 2, 1, r)] = ("int", r)
+            big[(1, 3, 9, 4, 1, r)] = ("int", -r)
+        big[(1, 3, 9, 3, 1, 1)] = ("int", 0)
+        big[(1, 3, 9, 5, 0)] = ("int", 5)
+        for roots in ([(1, 3, 9, 2), (1, 3, 9, 4), (1, 3, 9, 1)], [(1, 3, 9, 2), (1, 3, 9, 4), (1, 3, 9, 3)], [(1, 3, 9, 4), (1, 3, 9, 3), (1, 3, 9, 2)]):
+            for policy, bulk in (("partial_first", 20), ("partial_last", 25), ("fewer", 10)):
+                run_one(R, "v2c", roots, big, "bulkwalk", bulk, policy, 99, "big")
+                R.mon["big_walks"] += 1
     if R.shard == 0:
         corner = [
             ([(1, 3, 1), (1, 3, 2)], {(1, 3, 2, 1): ("int", 1), (1, 3, 2, 2): ("int", 2), (1, 3, 3, 0): ("int", 3)}),
